@@ -572,6 +572,10 @@ func init() {
 		fr.i.allocTrack = true
 		return int64(fr.i.allocEvents)
 	}
+	ext[symPkg+"PoolAllChoices"] = func(fr *frame, a []value) value {
+		fr.i.poolChoice = a[0].(bool)
+		return nil
+	}
 	ext[symPkg+"Load"] = func(fr *frame, a []value) value { fr.i.unsupported("sym.Load under executor"); return nil }
 
 	// ---- bytealg / strings / bytes -----------------------------------------------------------
